@@ -1,3 +1,3 @@
 # harness executables (name, sources, flavour, extra compile flags, extra link flags)
 $(eval $(call HARNESS,c12_runs,$(V)/harness/C12/c12_runs.cpp,plain,-pthread,-pthread))
-$(B)/bin/c12_runs: $(V)/harness/C12/c12_util.hpp
+$(B)/bin/c12_runs: $(V)/harness/C12/c12_util.hpp $(V)/harness/C12/c12_tight_table.inc
